@@ -233,14 +233,14 @@ def extra_checks(tier, verdict, cov):
     # ... nor names that no redo path can hold (a newline, a byte sequence that is not UTF-8)
     degenerate = ["/", "/..", "//", "/.", ".", "..", "./", "a/..", "a/../..", "a\nb.x", "n\udcff.x"]
     for arg in degenerate:
-        for tool in ("redo-whichdo", "redo-ifchange"):
+        for tool in ("redo-whichdo", "redo-ifchange", "redo"):
             rc, out, err = common.run_jailed(jail, ["/bin/" + tool, os.fsencode(arg)], "/p", timeout=30)
             if rc == 101 or "panicked" in err:
                 sig = {"kind": "abort-on-an-argument-that-names-no-file", "tool": tool, "argument": arg}
                 verdict.report(sig, {"engine": "E1-history", "check": "degenerate", "argument": arg, "tool": tool, "rc": rc, "stderr": err[-300:]})
                 bad.append(({"target": arg, "low": None, "high": None, "premkdir": None}, sig))
     if cov is not None:
-        cov["arguments_that_name_no_file"] = {"arguments": degenerate, "tools": ["redo-whichdo", "redo-ifchange"]}
+        cov["arguments_that_name_no_file"] = {"arguments": degenerate, "tools": ["redo-whichdo", "redo-ifchange", "redo"]}
         cov["targets_outside_the_project"] = {"cases": len(ojobs), "rule_places": ["outside", "ws", "top"],
                                               "foreign_rule_in_project_dir": [None, "default.gen.do", "default.do"]}
         cov["evaluations"] += len(ojobs)
